@@ -38,7 +38,7 @@ OPS = ("Select", "Where", "SelectMany")
 @st.composite
 def case_strategy(draw, maxdepth, odd=False, namings=("distinct", "distinct", "same", "reuse", "reuse", "argn", "argmix", "astnames")):
     naming = draw(st.sampled_from(namings))
-    cfg = typed.Cfg(naming=naming, odd_selectors=odd, method_form=draw(st.sampled_from([0.0, 0.2, 0.5])), free_scalar=True, higher_order=True, kwonly_in_called=True, dict_method_keys=True, seq_of_packages=True, starred_literals=True, callable_fields=True)
+    cfg = typed.Cfg(naming=naming, odd_selectors=odd, method_form=draw(st.sampled_from([0.0, 0.2, 0.5])), free_scalar=True, higher_order=True, kwonly_in_called=True, dict_method_keys=True, seq_of_packages=True, starred_literals=True, callable_fields=True, odd_operator_lambdas=True)
     cx = typed.Ctx(draw, cfg)
     env = [("ds", typed.S(typed.EVT))]  # (a second free variable, the scalar k0, may occur in default values of called lambdas)
     depth = draw(st.integers(2, maxdepth))
